@@ -344,12 +344,15 @@ func init() {
 			return multi && anyGroup(ps)
 		}}).run
 	campaigns["C02"] = (&engineCampaign{prop: "C02",
-		rule:  "random plans biased to many sequences (2-6) against Concurrency 0-3 (less, equal, more), latencies 0-800us so that sequences overlap, no failing actions in half of the cases; monitors: sequences with an action in flight / Running per block <= Concurrency, blocks never overlap; non-trivial = a block with more sequences than its Concurrency; distinct by spec",
+		rule:  "random plans biased to many sequences (2-6) against Concurrency 0-3 (less, equal, more), latencies 0-800us so that sequences overlap, no failing actions in half of the cases, in a fifth of the cases sequence actions whose first call outlives a 3-6 ms timeout (the abandoned call must end with its context); monitors: sequences with an action in flight / Running per block <= Concurrency, blocks never overlap; non-trivial = a block with more sequences than its Concurrency; distinct by spec",
 		quick: 300, thorough: 10000,
 		gen: func(i int, g *engineGen) {
 			g.MaxSeqs, g.DelayUs, g.PGroup, g.MaxActs = 6, 800, 0.2, 2
 			if i%2 == 0 {
 				g.PFail = 0
+			}
+			if i%5 == 3 {
+				g.Overruns = true // calls that outlive their action's timeout: abandoned calls must really be cancelled
 			}
 		},
 		nontriv: func(ps *PlanSpec, ix *index, res *runResult) bool {
